@@ -252,6 +252,72 @@ let cmd_render (graph_file : string) =
        | _ -> failwith ("render: bad line " ^ l))
   in loop ()
 
+(* skel <nmax>: for every number of files 0..nmax and every assignment of {readable, readFile fails,
+   ParseCtx fails} to the files: ALL configurations of pool_program (the skeleton the translator extracted from
+   graph.Initialize) reachable under the generic semantics Scan/SkelSem.v; checks that Scan/SkelAbs.abs is a
+   simulation onto Pool.step (every generic step is silent or a Pool step), that its image covers exactly Pool's
+   transitions from the abstract states met, that no configuration panics and only finished ones are stuck. *)
+let cmd_skel (nmax : int) (wi : int) =
+  let key x = Marshal.to_string x [Marshal.No_sharing] in
+  let w = nat_of_int wi in
+  (* the number of workers is a constant of the source (5); smaller pools are explored by overriding it *)
+  let pool_program = List.map (fun (g, body) -> (g, List.map (function SConst (x, v) when string_of_bytes v = "5" -> SConst (x, bytes_of_string (string_of_int wi)) | st -> st) body)) pool_program in
+  (* self-test of the exploration: SKEL_MUTATE=swapclose closes statusChan before resultChan,
+     SKEL_MUTATE=nojoin drops the wait for the status goroutine; both must be reported *)
+  let pool_program = match Sys.getenv_opt "SKEL_MUTATE" with
+    | Some "swapclose" -> List.map (fun (g, body) -> (g, (match body with
+        | [SWgWait; SClose a; SClose b; c] -> [SWgWait; SClose b; SClose a; c] | b -> b))) pool_program
+    | Some "nojoin" -> List.map (fun (g, body) -> (g, List.filter (function SRecv _ -> false | _ -> true) body)) pool_program
+    | _ -> pool_program in
+  let total_cfg = ref 0 and total_abs = ref 0 and total_edges = ref 0 and problems = ref 0 in
+  let problem fmt = Printf.ksprintf (fun m -> incr problems; if !problems <= 5 then Printf.printf "PROBLEM %s\n" m) fmt in
+  for n = 0 to nmax do
+    let files = List.init n (fun i -> nat_of_int (i + 1)) in
+    let rec assignments k = if k = 0 then [[]] else List.concat_map (fun r -> [0 :: r; 1 :: r; 2 :: r]) (assignments (k - 1)) in
+    List.iter (fun modes ->
+        let mode x = List.nth modes (int_of_nat x - 1) in
+        let fails fn x = let f = string_of_bytes fn in (f = "readFile" && mode x = 1) || (f = "parser.ParseCtx" && mode x = 2) in
+        let readable x = mode x = 0 in
+        let tag = Printf.sprintf "n=%d modes=%s" n (String.concat "" (List.map string_of_int modes)) in
+        let s0 = sk_init pool_program in
+        if key (abs files w s0) <> key (init files w) then problem "%s: abs of the initial configuration is not Pool.init" tag;
+        let seen = Hashtbl.create 100000 and absseen = Hashtbl.create 10000 and edges = Hashtbl.create 10000 in
+        let q = Queue.create () in
+        Hashtbl.replace seen (key s0) (); Queue.add s0 q;
+        while not (Queue.is_empty q) do
+          let s = Queue.pop q in
+          let a = abs files w s in
+          let ka = key a in
+          if not (Hashtbl.mem absseen ka) then Hashtbl.replace absseen ka a;
+          if s.s_panic then problem "%s: a configuration panics (send on / close of a closed channel, negative wait group)" tag;
+          if not (flags_agree s) then problem "%s: closed flags differ from the closer's program counter" tag;
+          let succs = sk_steps pool_program files fails s in
+          let psuccs = enabled_steps (nat_of_int n) w readable a in
+          if succs = [] then begin
+            if not (finished s) then problem "%s: a configuration is stuck with a goroutine still running" tag;
+            if psuccs <> [] then problem "%s: a stuck configuration maps to a Pool state that can step" tag
+          end;
+          List.iter (fun s' ->
+              let a' = abs files w s' in
+              let ka' = key a' in
+              if ka' <> ka then begin
+                if not (List.exists (fun t -> key t = ka') psuccs) then
+                  problem "%s: a step of the generic semantics is neither silent nor a step of Pool.v" tag;
+                Hashtbl.replace edges (ka ^ ka') ()
+              end;
+              let ks' = key s' in
+              if not (Hashtbl.mem seen ks') then (Hashtbl.replace seen ks' (); Queue.add s' q)) succs
+        done;
+        (* coverage: every Pool transition out of an abstract state met is the image of some generic step *)
+        Hashtbl.iter (fun ka a ->
+            List.iter (fun t -> if not (Hashtbl.mem edges (ka ^ key t)) then
+                          problem "%s: Pool.v has a transition that no configuration of the program can make" tag)
+              (enabled_steps (nat_of_int n) w readable a)) absseen;
+        total_cfg := !total_cfg + Hashtbl.length seen; total_abs := !total_abs + Hashtbl.length absseen;
+        total_edges := !total_edges + Hashtbl.length edges) (assignments n)
+  done;
+  Printf.printf "SKEL workers=%d nmax=%d configurations=%d pool_states=%d pool_edges=%d problems=%d\n" wi nmax !total_cfg !total_abs !total_edges !problems
+
 (* collect: local graphs in arrival order on stdin ("LOCAL" then "L <line>" ...), merged graph on stdout *)
 let cmd_collect () =
   let locals = ref [] and cur_n = ref [] and cur_e = ref [] and started = ref false in
@@ -354,4 +420,5 @@ let () =
   | [_; "collect"] -> cmd_collect ()
   | [_; "query"; g] -> cmd_query g
   | [_; "render"; g] -> cmd_render g
+  | [_; "skel"; n; w] -> cmd_skel (int_of_string n) (int_of_string w)
   | _ -> prerr_endline "usage: model build < cases | model query <graph> < queries"; exit 2
